@@ -155,6 +155,10 @@ class Sub:
     exhaustive: bool = False  # enum covers a finite space completely (thorough tier)
     exhaustive_quick: bool = False
     minimise: bool = True
+    watchdog: bool = False  # cases may hang inside uninterruptible C code: the parent kills a stalled shard
+
+
+STALL_S = 170  # a watched shard that stays on one case this long is killed (C20 confirms a hang 4 x 30 s itself)
 
 
 def _canon(obj) -> str:
@@ -222,10 +226,17 @@ def _run_shard(args) -> Stats:
     judge = guarded(sub.judge)
     stats = Stats()
 
+    wd_path = None
+    if sub.watchdog and os.environ.get("VERIF_WD_DIR"):
+        wd_path = os.path.join(os.environ["VERIF_WD_DIR"], f"{prop}-{subname}-{shard}.json")
+
     def one(case):
         if time.time() > deadline:
             stats.truncated += 1
             return
+        if wd_path:
+            with open(wd_path, "w", encoding="utf-8") as fh:
+                json.dump({"sub": subname, "case": case}, fh, default=str)
         try:
             v = judge(case)
         except Invalid:
@@ -233,16 +244,21 @@ def _run_shard(args) -> Stats:
             return
         _absorb(stats, sub, case, v)
 
+    def done():
+        if wd_path and os.path.exists(wd_path):
+            os.remove(wd_path)
+        return stats
+
     if sub.runner is not None:
         extra = sub.runner(tier, shard, nshards, derive_seed(seed, prop, subname, shard), deadline, one)
         stats.evaluations += int((extra or {}).get("executions", 0))
         for lab, n in ((extra or {}).get("labels") or {}).items():
             stats.labels[f"{sub.name}:{lab}"] += n
-        return stats
+        return done()
     if sub.enum is not None:
         for case in sub.enum(tier, shard, nshards):
             one(case)
-        return stats
+        return done()
 
     from hypothesis import HealthCheck, Phase, given, seed as hseed, settings
 
@@ -257,7 +273,7 @@ def _run_shard(args) -> Stats:
         one(case)
 
     prop_fn()
-    return stats
+    return done()
 
 
 def load_check(prop: str):
@@ -414,7 +430,45 @@ def run_check(prop: str, tier: str, seed: int) -> int:
             tasks.append((prop, sub.name, sh, nshards, per, seed, tier, deadline))
     # longest first is unknown; interleave subs so that all of them progress
     harness_error = None
-    if tasks:
+    watched = any(s_.watchdog for s_ in mod.SUBS)
+    stalled = []  # (subname, case) of shards killed by the watchdog
+    if tasks and watched:
+        import shutil
+        import tempfile
+
+        wd_dir = tempfile.mkdtemp(prefix="verif-wd-")
+        os.environ["VERIF_WD_DIR"] = wd_dir
+        ctx = mp.get_context("fork")
+        pool = ctx.Pool(min(NPROC, len(tasks)))
+        try:
+            results = [pool.apply_async(_run_shard, (t,)) for t in tasks]
+            pending = set(range(len(tasks)))
+            while pending and not stalled:
+                for i in list(pending):
+                    if results[i].ready():
+                        total.merge(results[i].get())
+                        pending.discard(i)
+                now = time.time()
+                for name in os.listdir(wd_dir):
+                    path = os.path.join(wd_dir, name)
+                    try:
+                        if now - os.path.getmtime(path) > STALL_S:
+                            doc = json.load(open(path, encoding="utf-8"))
+                            stalled.append((doc["sub"], doc["case"]))
+                    except (OSError, ValueError):
+                        continue
+                if pending and not stalled:
+                    time.sleep(0.25)
+        except HarnessError as ex:
+            harness_error = str(ex)
+        except Exception as ex:  # pylint: disable=broad-except
+            harness_error = f"{type(ex).__name__}: {ex}\n{traceback.format_exc()}"
+        finally:
+            pool.terminate()
+            pool.join()
+            os.environ.pop("VERIF_WD_DIR", None)
+            shutil.rmtree(wd_dir, ignore_errors=True)
+    elif tasks:
         ctx = mp.get_context("fork")
         with ctx.Pool(min(NPROC, len(tasks))) as pool:
             try:
@@ -431,6 +485,14 @@ def run_check(prop: str, tier: str, seed: int) -> int:
     # 3. buckets -> known finding | minimise + replay file + VIOLATION
     subs = {s.name: s for s in mod.SUBS}
     known_hit = Counter()
+    for subname, case in stalled:
+        # never re-judged in this process (it would not come back): the case goes into the replay file as it is
+        target = case.get("target", "") if isinstance(case, dict) else ""
+        bucket = f"hang-watchdog:{subname}:{target}"
+        total.fail_counts[bucket] += 1
+        path = write_replay(prop, subname, bucket, case, {"note": f"no answer within {STALL_S} s; the worker was killed "
+                                                                  "(uninterruptible computation)"})
+        violations.append(f"VIOLATION property={prop} replay={path}")
     for bucket, (_size, case, detail, subname) in sorted(total.failures.items()):
         if bucket in known:
             known_hit[bucket] = total.fail_counts[bucket]
@@ -507,6 +569,31 @@ def replay_file(path: str, quiet: bool = False):
     capture()
     mod = load_check(prop)
     sub = next(s for s in mod.SUBS if s.name == doc["sub"])
+    if str(doc.get("bucket", "")).startswith("hang-watchdog:"):
+        # evaluated in a child that can be killed
+        ctx = mp.get_context("fork")
+        q = ctx.Queue()
+
+        def child():
+            try:
+                v_ = guarded(sub.judge)(doc["case"])
+                q.put([b for b, _ in v_.fails])
+            except Invalid:
+                q.put([])
+
+        pr = ctx.Process(target=child)
+        pr.start()
+        pr.join(STALL_S)
+        if pr.is_alive():
+            pr.terminate()
+            pr.join()
+            if not quiet:
+                print(f"replay {path}: bucket={doc['bucket']} (no answer within {STALL_S} s)")
+            return [doc["bucket"]]
+        buckets = q.get() if not q.empty() else []
+        if not quiet:
+            print(f"replay {path}: " + (f"buckets={buckets}" if buckets else "passes"))
+        return buckets
     try:
         v = guarded(sub.judge)(doc["case"])
     except Invalid:
